@@ -63,4 +63,7 @@ def classify(ctx, scripts, log):
         kinds.add("several_releases")
     for k in kinds:
         ctx.count(k)
+    before = getattr(ctx, "cases", 0)
     kernlib.classify(ctx, scripts, log)
+    if kinds and getattr(ctx, "cases", 0) == before:
+        ctx.count_case()
